@@ -330,10 +330,11 @@ class Builder:
 		lines[1].element = info
 		return lines
 
-	def g_named_inline(self):
-		if not self.named_templates:
-			return self.g_bytes()
-		template = self.rng.choice(self.named_templates)
+	def g_named_inline(self, kinds=('reserved', 'bytes')):
+		candidates = [template for template in self.named_templates if template[1] in kinds]
+		if not candidates:
+			return self.g_bytes() if 'bytes' in kinds else self.g_alias()
+		template = self.rng.choice(candidates)
 		member = self.member_name(allow_special=False)
 		self.used_members.add(f'{member}_{template[2]}')
 		self.note('inline:named')
@@ -384,18 +385,19 @@ class Builder:
 			Line(f'{member} = array({self.rng.choice(["int8", "uint8"])}, {member}_size) if {sentinel_text} not equals {member}_size')]
 
 	def g_union(self):
-		arms = self.rng.choice([2, 2, 3])
-		enum = self.add_enum(count=arms, bitwise=False)
+		arm_count = self.rng.choice([2, 2, 3])
+		enum = self.add_enum(count=arm_count, bitwise=False)
 		size = self.rng.choice([1, 2, 4, 8, 8])
 		pool = [a for a in self.int_aliases if a[1] == size] + [b for b in self.buf_aliases if b[1] == size]
 		while len(pool) < 2:
 			pool.append((self.add_int_alias(size), size) if self.chance(2, 3) else (self.add_buf_alias(size), size))
 		selector = self.member_name(allow_special=False)
-		lines = []
+		arms = []
 		for value_name, _ in enum[2]:
-			lines.append(Line(f'{self.member_name(allow_special=False)} = {self.rng.choice(pool)[0]} if {value_name} equals {selector}'))
-		self.rng.shuffle(lines)
-		lines.append(Line(f'{selector} = {enum[0]}'))
+			arms.append(f'{self.member_name(allow_special=False)} = {self.rng.choice(pool)[0]} if {value_name} equals {selector}')
+		self.rng.shuffle(arms)
+		# the arms occupy the same bytes (one dummy read): they stay adjacent; other members may sit between them and the selector
+		lines = [Line('\n\t'.join(arms)), Line(f'{selector} = {enum[0]}')]
 		self.note('cond:union')
 		return lines
 
@@ -416,8 +418,8 @@ class Builder:
 			'int': self.g_int, 'alias': self.g_alias, 'enum': self.g_enum, 'reserved': self.g_reserved, 'bytes': self.g_bytes,
 			'counted': self.g_counted, 'named_inline': self.g_named_inline, 'struct': self.g_struct, 'sizeof': self.g_sizeof,
 			'levy': self.g_levy, 'optbytes': self.g_optbytes, 'union': self.g_union, 'key_alias': lambda: self.g_alias(False),
-			'keyed': lambda: self.g_counted(('struct',), self.last_keyed)}
-		forms = [form for form in forms if form != 'named_inline' or self.named_templates]
+			'keyed': lambda: self.g_counted(('struct',), self.last_keyed),
+			'named_inline_fixed': lambda: self.g_named_inline(('reserved',))}
 		groups = [table[form]() for form in force]
 		while len(groups) < count:
 			groups.append(table[self.rng.choice(forms)]())
@@ -555,7 +557,7 @@ class Builder:
 		if family.plain_version:
 			disc_lines[family.plain_version] = Line(f'{family.plain_version} = uint{8 * rng.choice([1, 2])}')
 		# header members, some of them through unnamed inline templates
-		extra = self.random_groups(rng.randrange(1, 4), ['int', 'alias', 'alias', 'enum', 'reserved', 'reserved'] + (['named_inline'] if not symbol else []))
+		extra = self.random_groups(rng.randrange(1, 4), ['int', 'alias', 'alias', 'enum', 'reserved', 'reserved'] + (['named_inline_fixed'] if not symbol else []))
 		members = self.merge(extra + [[line] for line in disc_lines.values()])
 		header = []
 		if symbol:
@@ -625,7 +627,7 @@ class Builder:
 					break
 			force = forced.pop(0) if forced else ()
 			tail = tails.pop(0) if tails else None
-			groups = self.random_groups(max(len(force), rng.randrange(0, 4)), body_forms, force)
+			groups = self.random_groups(max(len(force), rng.randrange(0 if tail else 1, 4)), body_forms, force)
 			body = self.merge(groups)
 			if tail:
 				body = body + tail
